@@ -25,10 +25,11 @@ def driverLine (inp obs : List String) : Bool × Bool × String × String :=
     (m == o, specHolds (parsePref pref) (sort == "1") port l o, "C16/order", showAddrs m)
   | "glue" :: he :: b4 :: b6 :: rest =>
     let l := parseAddrs rest
-    let m := connectingOrder (he == "1") (b4 == "1") (b6 == "1") l
+    -- a local address of any kind (loopback `1`, wildcard `w`, some other host address `p`) counts as bound
+    let m := connectingOrder (he == "1") (b4 != "0") (b6 != "0") l
     let o := parseAddrs obs
-    let pref := fromBinding (b4 == "1") (b6 == "1")
+    let pref := fromBinding (b4 != "0") (b6 != "0")
     (m == o, specHolds pref (he == "1") none l o, "C16/glue-order", showAddrs m)
-  | _ => (false, false, "bad-line", "")
+  | _ => (false, false, "C16/bad-line", "")
 
 end Hd.Dns
